@@ -40,10 +40,12 @@ CLAIMED = {
             "Tie: the implementation is really killed (_exit) before every system call of 15 scenario families, restarted and drained, and compared with the model under the same crash index.",
             NOTE + "Crash = process death between two system calls with completed calls durable. Known finding K3 (reload changing queue_path strands pending entries).",
             "prefix-closed simulation invariant; crash-point enumeration against the model + recovery monitor"),
-    "C04": ("Theorems: candidate names base,-1,-2,... for every k; every creating/removing/write-opening call confined under every oracle (store files are only opened O_CREAT|O_EXCL; the call alphabet "
-            "has no rename or truncating open). Tie: histories with up to 12 versions in one timestamp and pre-seeded names, judged by 'no store file changes or disappears' and "
-            "'first free name' monitors; thorough: every crash point and single fault.",
-            NOTE + "Partial until the semantic store-immutability theorem (StoreProofs) is integrated.", "layout theorem + call discipline for all oracles; world correspondence + monitors"),
+    "C04": ("Theorems for EVERY oracle (any failing calls, short transfers, a crash at any call): a timeout pass, an exec or write event (including a configuration reload), a restart, "
+            "and whole histories of events change or remove no file of the store or project store (same name, same inode, same bytes), and the invariant is re-established so the statement chains; "
+            "candidate names are base, -1, -2, ... for every k. Tie: histories with up to 12 versions in one timestamp and pre-seeded names, monitors 'no store file changes or disappears' and "
+            "'first free name'; thorough: every crash point and single fault.",
+            NOTE + "Hypotheses: the six configured locations pairwise non-nested; offset files and the journal share no inode with store files (both re-established by every operation). 'First free name' itself is judged by the monitor.",
+            "program logic with crash condition (preservation relative to the initial file system, for all oracles); world correspondence + monitors"),
     "C05": ("Theorems for every content, offset and every positive chunking of the transfer: the version is byte-for-byte the source from the offset on, created as a new inode, nothing else touched "
             "(also when ancestors must be created); and for a missing, unreadable or non-regular source: result 0, the matching condition recorded, nothing added, every file and link kept, only "
             "directories on the destination chain that are empty without it disappear. Tie: sizes around the page and 70000 bytes, chunk limits, and every way the source changes before the copy, with real EACCES.",
@@ -62,9 +64,11 @@ CLAIMED = {
     "C19": ("Theorems: line format (empty timestamp/label omitted with their tab, pid omitted when 0), exactly one newline, any positive chunking of the write appends exactly the line once, a labelled "
             "event appends exactly its line and nothing else changes, unlabelled events / no journal do nothing. Tie: all label choices, timestamp patterns including the empty one, short writes, journal monitor.",
             NOTE, "induction over the write loop for all chunkings; world correspondence + journal monitor"),
-    "C20": ("Descriptor and heap figures measured on the real code (wrapped open/close and allocator): 2 descriptors with a handler loaded after every operation, 0 after release; one mixed round repeated "
-            "1, 10, 100 times ends with identical live-block and descriptor counts. Theorem so far: the in-memory multiset grows only with the queue.",
-            NOTE + "Partial: memory is not expressible in the model (objects are values); descriptor neutrality theorem (FdProofs) pending.", "measurement on the implementation + correspondence"),
+    "C20": ("Theorems for every oracle: a timeout pass, an exec event and any sequence of events release every descriptor they acquire (count from the call log: opens that returned a descriptor minus closes); "
+            "loading acquires exactly what the handler holds and releasing gives it back; a whole session returns the count to its start; with reloads the count moves with what the handler holds. "
+            "Heap: measured on the real code (wrapped allocator): one mixed round repeated 1, 10, 100 times ends with identical live-block and descriptor counts, 0 after release; 2 descriptors after every operation.",
+            NOTE + "Partial for memory: not expressible in the model (objects are values), measured instead. Two descriptor leaks on error paths that stop the daemon (load_linq after a failed read_entry; reload when the new journal cannot be opened) are stated exactly in the theorems.",
+            "call-log counting judgement for all oracles; measurement on the implementation + correspondence"),
 }
 ENGINE = "coq-model+correspondence"
 
